@@ -1,7 +1,7 @@
 (* C14 — pinned statements: each theorem of Props/C14.v must still have exactly this statement. *)
 From Coq Require Import String List ZArith QArith Bool.
 From NV Require Import Surface.Ast Surface.Indent Surface.Print Surface.Parse Surface.TableWf
-  Surface.RoundTrip Surface.Multiline Surface.Examples Surface.Refuted Gen.OpTable Props.C14.
+  Surface.RoundTrip Surface.Multiline Surface.Image Surface.Examples Surface.Refuted Gen.OpTable Props.C14.
 Import ListNotations.
 Open Scope string_scope.
 
@@ -12,6 +12,8 @@ Check (C14_print_fixpoint_core :
   forall t t', core primops infix_ops repaired_code t ->
     pa repaired_code (pr repaired_code t) = Some t' -> pr repaired_code t' = pr repaired_code t).
 Check (C14_core_nonvacuous : core primops infix_ops repaired_code ex_core).
+Check (C14_core_in_image :
+  forall t, core primops infix_ops repaired_code t -> parser_image primops infix_ops t = true).
 Check (C14_multiline_delim_safe :
   forall cs : list chunk, no_adjacent_lits cs ->
     lex (S (nb_percent cs)) (render (nb_percent cs) cs) DStart = expected cs).
